@@ -169,6 +169,8 @@ ParamSpec paramSpecOf(const Op &op) {
             if (longOne && i == longIdx) s.strs.push_back(genText(r, longLens[r.below(7)]));
             else s.strs.push_back(genText(r, r.below(4) == 0 ? 0 : r.below(24)));
         }
+        // now and then one value ends in blanks (kept in memory, padding in a file): it may be the longest value only because of them
+        if (!s.strs.empty() && r.below(8) == 0) { std::string &v = s.strs[r.below(s.strs.size())]; const size_t nb = 1 + r.below(9); if (v.size() + nb <= 255) v += std::string(nb, ' '); }
     }
     return s;
 }
